@@ -1952,6 +1952,29 @@ func (k *Kernel) handleReplayedHeader(
 		}
 	}
 
+	// The hash only covers the validator hashes.
+	// The signatures below are verified against the header's validator set
+	// while the majority threshold comes from the voting view,
+	// so the header must carry exactly the validator set we expect for this height,
+	// and its next validator set must match the hashes covered by the block hash.
+	if !header.ValidatorSet.Equal(s.Voting.ValidatorSet) ||
+		!validatorSetMatchesHashes(header.ValidatorSet, k.hashScheme) {
+		return tmelink.ReplayedHeaderValidationError{
+			Err: fmt.Errorf(
+				"replayed header's validator set differs from the expected validator set at height %d",
+				header.Height,
+			),
+		}
+	}
+	if !validatorSetMatchesHashes(header.NextValidatorSet, k.hashScheme) {
+		return tmelink.ReplayedHeaderValidationError{
+			Err: fmt.Errorf(
+				"replayed header's next validator set does not match its validator hashes at height %d",
+				header.Height,
+			),
+		}
+	}
+
 	// The hash checks out, but we need to ensure that every signature we have is valid.
 	// We must be pessimistic about the validity,
 	// so we will work with a clone of the existing precommit proofs, if we have any.
@@ -2117,6 +2140,20 @@ func (k *Kernel) handleReplayedHeader(
 	}
 
 	return nil
+}
+
+// validatorSetMatchesHashes reports whether the validators and public keys in vs
+// are exactly the ones that vs's PubKeyHash and VotePowerHash were calculated from.
+func validatorSetMatchesHashes(vs tmconsensus.ValidatorSet, hs tmconsensus.HashScheme) bool {
+	want, err := tmconsensus.NewValidatorSet(vs.Validators, hs)
+	if err != nil {
+		return false
+	}
+
+	return want.Equal(vs) &&
+		slices.EqualFunc(want.PubKeys, vs.PubKeys, func(a, b gcrypto.PubKey) bool {
+			return a.Equal(b)
+		})
 }
 
 // loadInitialView loads the committing or voting RoundView
